@@ -8,16 +8,24 @@
 #   here: 1 KiB blocks, 8192 blocks per group, 5 groups, backup groups 1 and 4; the filesystem is filled by one file; after
 #   `resize2fs img 80M` the block 32769 + 1 + 257 = 33027 (file data) is free in the block bitmap; the next allocation may
 #   hand it out again (silent corruption of the file).
+#   case 2: a freshly made, EMPTY two-group filesystem (16 MiB, backup groups {0,1}) grown to three groups: group 1 loses
+#   its backup, block 8193 + 1 + 128 = 8322 (first block behind the reserved GDT copies, in use) is marked free as well.
 # usage: demo.sh [built e2fsprogs tree, default /repo]; exit 0 = consistent after the resize, 1 = defect present
 T=${1:-/repo}
 d=$(mktemp -d); trap 'rm -rf $d' EXIT
+bad=0
+$T/misc/mke2fs -q -F -t ext4 -O sparse_super2 -b 1024 -g 8192 $d/c.img 16M >/dev/null 2>&1 || exit 2
+$T/resize/resize2fs $d/c.img 25000K >/dev/null 2>&1 || { echo "resize2fs failed"; exit 2; }
+out=$($T/e2fsck/e2fsck -fn $d/c.img 2>&1); rc=$?
+if [ $rc -ne 0 ]; then echo "case 2: e2fsck -fn after 'resize2fs img 25000K' of an empty 16M filesystem (exit $rc):"; echo "$out" | grep -A1 "differences"; bad=1;
+else echo "case 2: empty two-group filesystem consistent after growing"; fi
 mkdir $d/src
 head -c 30000000 /dev/urandom > $d/src/big
 $T/misc/mke2fs -q -F -t ext4 -O sparse_super2 -b 1024 -g 8192 -d $d/src $d/a.img 40M >/dev/null 2>&1 || exit 2
 $T/e2fsck/e2fsck -fn $d/a.img >/dev/null 2>&1 || { echo "setup: image not clean"; exit 2; }
 $T/resize/resize2fs $d/a.img 80M >/dev/null 2>&1 || { echo "resize2fs failed"; exit 2; }
 out=$($T/e2fsck/e2fsck -fn $d/a.img 2>&1); rc=$?
-if [ $rc -eq 0 ]; then echo "filesystem consistent after growing (backup run of the old last group released exactly)"; exit 0; fi
-echo "e2fsck -fn after a successful 'resize2fs img 80M' (exit $rc):"
+if [ $rc -eq 0 ]; then echo "case 1: filesystem consistent after growing (backup run of the old last group released exactly)"; exit $bad; fi
+echo "case 1: e2fsck -fn after a successful 'resize2fs img 80M' (exit $rc):"
 echo "$out" | grep -A1 "differences"
 exit 1
